@@ -418,6 +418,11 @@ impl<'ast, 'psess, 'c> ModResolver<'ast, 'psess> {
                     }
                 }
                 match Parser::parse_file_as_module(self.psess, &file_path, sub_mod.span) {
+                    // The default file opts out; `cfg_attr(path)` candidates are still modules of
+                    // this crate.
+                    Ok((ref attrs, _, _)) if contains_skip(attrs) && !outside_mods_empty => {
+                        Ok(Some(SubModKind::MultiExternal(mods_outside_ast)))
+                    }
                     Ok((ref attrs, _, _)) if contains_skip(attrs) => Ok(None),
                     Ok((attrs, items, span)) if outside_mods_empty => {
                         Ok(Some(SubModKind::External(
